@@ -401,6 +401,10 @@ class ProdParser(object):
             if token[0] == self.types.S:
                 try:
                     next_ = next(tokens)
+                    # whitespace split by a comment that is not parsed
+                    # arrives as adjacent S tokens: they count as one
+                    while next_[0] == self.types.S:
+                        next_ = next(tokens)
                 except StopIteration:
                     yield token
                 else:
@@ -483,6 +487,8 @@ class ProdParser(object):
         defaultS = True
 
         stopIfNoMoreMatch = False
+        # checkS: True while the last token which was not a comment was an S
+        afterS = False
 
         while True:
             # get from savedTokens or normal tokens
@@ -498,6 +504,13 @@ class ProdParser(object):
             # print debug, token, stopIfNoMoreMatch
 
             type_, val, line, col = token
+
+            if checkS and type_ != self.types.COMMENT:
+                if type_ == self.types.S and afterS:
+                    # "S COMMENT S" (or "S S" if comments are not parsed)
+                    # is a single whitespace
+                    continue
+                afterS = type_ == self.types.S
 
             # default productions
             if type_ == self.types.COMMENT:
